@@ -74,7 +74,7 @@ def forward_kernel(rep, rid, tu, ex):
     if len(ms) != 1:
         raise AnalysisError(f"{rid}: mass_sqrt assignment vanished in get_dynmat_ij")
     mval = ctx.expr(cast.kids(ms[0])[1])
-    rep.instance(rid, DYN, "get_dynmat_ij", f"mass_sqrt = {mval}", sp.simplify(mval - sp.sqrt(sp.Function("mass")(i) * sp.Function("mass")(j))) == 0, "the forward mass factor is not sqrt(m_i m_j)", line=tu.line(ms[0]))
+    rep.instance(rid, DYN, "get_dynmat_ij", f"mass_sqrt = {mval}", sp.expand(mval**2 - sp.Function("mass")(i) * sp.Function("mass")(j)) == 0 and mval.is_Pow, "the forward mass factor is not sqrt(m_i m_j)", line=tu.line(ms[0]))
     # the statements around the image loop: dm zeroed for all 3x3x2 cells, then every cell divided by mass_sqrt into D
     top = cast.kids(cast.body(gij))
     loops = [x for x in top if x.get("kind") == "ForStmt"]
@@ -97,7 +97,7 @@ def forward_kernel(rep, rid, tu, ex):
             for c in range(2):
                 want_out[(str(sp.expand((i * 3 + a) * n * 3 + j * 3 + b)), str(c))] = sp.Function("dm")(a, b, c) / sp.Symbol("mass_sqrt")
     got_out = {tuple(str(x) for x in pat): val for pat, _, val in outs}
-    ok_out = set(got_out) == set(want_out) and all(sp.simplify(got_out[k_] - want_out[k_]) == 0 for k_ in want_out)
+    ok_out = set(got_out) == set(want_out) and all(celem.same(got_out[k_], want_out[k_]) for k_ in want_out)
     rep.instance(rid, DYN, "get_dynmat_ij", "D[(3i+a), (3j+b)] = dm[a][b] / mass_sqrt for all 9 (a, b), real and imaginary part", ok_out,
                  f"the block of the pair (i, j) is not dm / sqrt(m_i m_j) stored at rows 3i.., columns 3j.. ({len(got_out)} cells written)", line=tu.line(gij))
     if result is None:
@@ -175,7 +175,7 @@ def run(rep: core.Report):
     subs = {sp.Function("q")(mm): comm_f(kv, mm) for mm in range(3)}
     fre = sre.subs(k, j).subs(lvf, lv).subs(subs)  # atom index first: the inverse loop variable is also called k
     fim = sim.subs(k, j).subs(lvf, lv).subs(subs)
-    rep.instance("R06b", DYN, "get_dm / transform_dynmat_to_fc_ij", "inverse phase factor == conjugate of the forward phase factor at q_k for the same pair and image", sp.simplify(fre - s0) == 0 and sp.simplify(fim - s1) == 0,
+    rep.instance("R06b", DYN, "get_dm / transform_dynmat_to_fc_ij", "inverse phase factor == conjugate of the forward phase factor at q_k for the same pair and image", celem.same(fre, s0) and celem.same(fim, s1),
                  "forward and inverse transforms do not use conjugate phases over the same shortest vectors: the round trip is not the identity", line=line)
     # ---- Python -----------------------------------------------------------
     sq = core.find_def(D2F, "DynmatToForceConstants._sum_q")
